@@ -194,7 +194,12 @@ fn seg_ending_at_boundary(ctx: &mut Ctx, buf: BufKind) -> Option<Vec<u8>> {
             let mut f = crate::refm::transport::START.to_vec();
             f.extend_from_slice(&[0x31, 0x32]);
             f.extend(std::iter::repeat(0).take(rng.range(0, 4)));
-            f.extend_from_slice(&[0x1b, 0x1b, 0x1b, 0x1b, *rng.pick(&[0x02u8, 0x03, 0x1c, 0x00]), rng.byte(), rng.byte(), rng.byte()]);
+            f.extend_from_slice(&[0x1b, 0x1b, 0x1b, 0x1b]);
+            match rng.below(3) {
+                0 => f.extend_from_slice(&[*rng.pick(&[0x02u8, 0x03, 0x1c, 0x00]), rng.byte(), rng.byte(), rng.byte()]),
+                1 => f.extend_from_slice(&[0x1b, 0x1b, 0x1b, 0x55]),
+                _ => f.extend_from_slice(&[0x1b, *rng.pick(&[0x55u8, 0x1b]), 0x55, *rng.pick(&[0x1b, 0x00])]),
+            }
             f
         }
         4 => {
@@ -251,7 +256,7 @@ fn sensitive_tail(ctx: &mut Ctx, buf: BufKind) -> Vec<u8> {
         BufKind::Vec => 48,
         BufKind::Arr(n) => n.min(48),
     };
-    match rng.below(8) {
+    match rng.below(9) {
         0 => {
             // tail is zeros + padding (leaked withheld zeros change the pad check)
             let mut p: Vec<u8> = (0..rng.range(0, cap.saturating_sub(4))).map(|i| 0x51 + i as u8).collect();
@@ -288,6 +293,14 @@ fn sensitive_tail(ctx: &mut Ctx, buf: BufKind) -> Vec<u8> {
             f[..c].to_vec()
         }
         5 => Vec::new(),
+        6 => {
+            // a frame whose start sequence lost its first 1..4 bytes (a leaked partial match would complete it)
+            let mut p = payload::any_payload(rng);
+            p.truncate(cap);
+            let f = ref_encode(&p);
+            let k = rng.range(1, 4);
+            f[k..].to_vec()
+        }
         _ => stream::any_stream(rng),
     }
 }
